@@ -307,6 +307,7 @@ type rawRun struct {
 	probed                 bool
 	sendingProbe           bool
 	straddled              bool
+	probeInsideInternal    bool
 	straddleSlack          int
 	shrunk                 bool
 	pSentMax               uint32 // highest sequence number (exclusive) a conforming send has covered
@@ -653,7 +654,11 @@ func (x *rawRun) onEmit(d *Decoded) {
 		}
 		x.haveEEdge = true
 		if x.probed && x.has('w') && x.pSentMax != 0 && ref.SeqLT(x.pSentMax, t.Ack) {
-			x.fail("C04", "beyond-window-accepted", "beyond-window-accepted", "the stack acknowledges +%d although the only segment carrying those bytes lay wholly beyond the window it had advertised (conforming data ends at +%d)", t.Ack-x.cfg.PeerISS-1, x.pSentMax-x.cfg.PeerISS-1)
+			key := "beyond-window-accepted"
+			if x.probeInsideInternal {
+				key = "beyond-window-accepted-below-scale-unit"
+			}
+			x.fail("C04", "beyond-window-accepted", key, "the stack acknowledges +%d although the only segment carrying those bytes lay wholly beyond the window it had advertised (conforming data ends at +%d)", t.Ack-x.cfg.PeerISS-1, x.pSentMax-x.cfg.PeerISS-1)
 		}
 	}
 	if n == 0 && t.Flags&ref.FIN == 0 {
@@ -1180,6 +1185,11 @@ func (x *rawRun) menu() []action {
 			}
 			m = append(m, action{name: fmt.Sprintf("non-conforming peer sends [%d,+%d), which starts at the window edge (wholly outside the window)", edgeOff, n), cost: 1, do: func() {
 				x.probed = true
+				// with window scaling the stack's own idea of its right edge can lie up to
+				// 2^scale - 1 bytes beyond what the truncated window field tells the peer (D9)
+				if st := tcp.VerifDump(x.ep); st.HasRcv && x.stackShift() > 0 && ref.SeqLT(x.sEdge, st.RcvAcc) && st.RcvAcc-x.sEdge < 1<<x.stackShift() {
+					x.probeInsideInternal = true
+				}
 				x.sendingProbe = true
 				x.peerSendData(edgeOff, n, false)
 				x.sendingProbe = false
@@ -1509,6 +1519,9 @@ func rawJobsC01(tier string) []string {
 	// window-limited sender: writes below the MSS that do not fit the room left in the peer's window
 	add(base+",mss=536,pwnd=1000,w=400+400+400+300,pd=,b=1", 2)
 	add(base+",mss=100,pwnd=150,w=60+60+60+60+200,pd=,b=1", 2)
+	// a peer that overruns the advertised window: a segment straddling the right edge
+	add("or=s,devs=o,mss=1460,rcvbuf=200,pd=150+100+100,read=eager,b=1", 1)
+	add("or=s,devs=o,mss=1460,rcvbuf=200,pd=150+100+100,read=stall,b=1", 1)
 	// peer segments that arrive two at a time (one handleSegments batch), in and out of order
 	add("or=s,devs=gko,mss=24,w=48,pd=4x20,psack=1,sack=1,b=1", 2)
 	if tier == "thorough" {
